@@ -807,6 +807,30 @@ class Facts:
         setattr(self, key, cg)
         return cg
 
+    def callsites(self, config="A"):
+        """reverse index: id(callee Fn) -> [(caller Fn, call / lambda-expression node)] (witness functions excluded)"""
+        key = "_cs_" + config
+        if hasattr(self, key):
+            return getattr(self, key)
+        byname = defaultdict(list)
+        for f in self.fns:
+            if f.config == config:
+                byname[(f.name, f.sig)].append(f)
+        rev = defaultdict(list)
+        for f in self.fns:
+            if f.config != config or f.rec.get("main"):
+                continue
+            for n in f.walk():
+                if is_call(n) and n.get("callee"):
+                    for t in byname.get((n["callee"], n.get("sig", "")), ()):
+                        rev[id(t)].append((f, n))
+                elif n["k"] == "LambdaExpr":
+                    for t in self.by_name.get(f.name + "::" + n["lambda"], ()):
+                        if t.config == config:
+                            rev[id(t)].append((f, n))
+        setattr(self, key, rev)
+        return rev
+
     def reachable_fns(self, roots, config="A", stop=None):
         cg = self.callgraph(config)
         seen = {}
